@@ -383,13 +383,38 @@ fn gen_request(rng: &mut Rng, world: &World, registered: &[usize]) -> Req {
     Req { endpoint: path_ep, method, body, content_type, expect, what: format!("{endpoint}: {what}") }
 }
 
+/// What the tower (from memory) tells each user of the world about their subscription: slots, expiry, locators.
+/// `None` = not registered / expired. Asked of the InternalAPI directly, with the unreachable flag lifted for the question.
+type WireView = Vec<Option<(u32, u32, Vec<Vec<u8>>)>>;
+fn wire_view(rt: &tokio::runtime::Runtime, api: &Arc<teos::api::internal::InternalAPI>, world: &World, reachable: &tower::Reachable) -> WireView {
+    let was = std::mem::replace(&mut *reachable.0.lock().unwrap(), true);
+    let v = world
+        .users
+        .iter()
+        .map(|(sk, _)| {
+            let signature = cryptography::sign(b"get subscription info", sk);
+            rt.block_on(api.get_subscription_info(Request::new(msgs::GetSubscriptionInfoRequest { signature }))).ok().map(|r| {
+                let r = r.into_inner();
+                let mut l = r.locators;
+                l.sort();
+                (r.available_slots, r.subscription_expiry, l)
+            })
+        })
+        .collect();
+    *reachable.0.lock().unwrap() = was;
+    v
+}
+
 pub fn run_c15(seed: u64, shard: u64, requests: u64, rep: &mut Report) {
     panics::install();
     let dir = PathBuf::from(format!("/dev/shm/tv-e5-{}", std::process::id()));
     std::fs::create_dir_all(&dir).unwrap();
     let mut rng = Rng::stream(seed, 0xE5, shard);
     let world = World::new(&mut rng, 4, 4, 101);
-    let cfg = TowerCfg { slots: 50, duration: 500, grace: 6, db_path: dir.join("c15.sqlite") };
+    // every fourth shard runs a tower whose subscription is so large that the third registration of a user overflows the
+    // slot counter: the documented "resource exhausted" rejection, which must change nothing either
+    let big = shard % 4 == 3;
+    let cfg = TowerCfg { slots: if big { u32::MAX / 2 } else { 50 }, duration: 500, grace: 6, db_path: dir.join("c15.sqlite") };
     let _ = std::fs::remove_file(&cfg.db_path);
     let chain = world.simchain();
     let node = world.node.clone();
@@ -412,10 +437,11 @@ pub fn run_c15(seed: u64, shard: u64, requests: u64, rep: &mut Report) {
             let down = i % 40 >= 35;
             *s.reachable.0.lock().unwrap() = !down;
             let mut req = gen_request(&mut rng, &world, &registered);
-            if down && req.expect == Expectation::MustSucceed {
+            if (down || big) && req.expect == Expectation::MustSucceed {
                 req.expect = Expectation::Either;
             }
             let before = Snap::read(&cfg.db_path).unwrap_or_default();
+            let wire_before = wire_view(&rt, &s.api.local(), &world, &s.reachable);
             let path = format!("/{}", req.endpoint);
             let mut reply = raw_request(addr, req.method, &path, req.content_type, &req.body, timeout);
             r.eval();
@@ -435,6 +461,7 @@ pub fn run_c15(seed: u64, shard: u64, requests: u64, rep: &mut Report) {
             r.count(&format!("status[{}]", reply.status), 1);
             r.nontrivial(fnv(&req.body) ^ fnv(path.as_bytes()) ^ fnv(req.method.as_bytes()));
             let after = Snap::read(&cfg.db_path).unwrap_or_default();
+            let wire_after = wire_view(&rt, &s.api.local(), &world, &s.reachable);
             let existing_ep = LIMITS.iter().find(|(e, _)| *e == req.endpoint);
             // (1) status class
             let ok_class = reply.status == 200 || (400..500).contains(&reply.status) || reply.status == 503;
@@ -445,6 +472,17 @@ pub fn run_c15(seed: u64, shard: u64, requests: u64, rep: &mut Report) {
             // (2) non-200 leaves the state unchanged
             if reply.status != 200 && !after.content_eq(&before) {
                 r.violation("C15:rejected-request-changed-state", format!("request #{i} ({}) was answered {} but the tower database changed", req.what, reply.status), replay.clone());
+            }
+            // ... including the state the tower holds in memory, as it reports it itself to every user of the world
+            if reply.status != 200 {
+                r.count("rejections_with_memory_view_compared", 1);
+                if wire_after != wire_before {
+                    let who = (0..wire_before.len()).find(|u| wire_before[*u] != wire_after[*u]).unwrap_or(0);
+                    r.violation("C15:rejected-request-changed-memory", format!("request #{i} ({}) was answered {} {:?} but what the tower reports about user {who} changed: {:?} -> {:?}", req.what, reply.status, String::from_utf8_lossy(&reply.body[..reply.body.len().min(120)]), wire_before[who].as_ref().map(|x| (x.0, x.1, x.2.len())), wire_after[who].as_ref().map(|x| (x.0, x.1, x.2.len()))), replay.clone());
+                }
+                if big && serde_json::from_slice::<Value>(&reply.body).ok().and_then(|v| v.get("error_code").and_then(|c| c.as_u64())) == Some(65) {
+                    r.count("slot_overflow_rejections", 1);
+                }
             }
             if down && reply.status == 200 {
                 r.violation("C15:accepted-while-unavailable", format!("request #{i} ({}) was answered 200 while bitcoind is flagged unreachable", req.what), replay.clone());
